@@ -16,7 +16,10 @@ RULE = ("one case = a history of create / hand-made recording / fill / save / re
         "key texts with quotes, unicode, separators, JSON metacharacters; values from the faithful-domain generator "
         "(tuples, bytes, nested containers, objects, class references, big ints, floats); every saved id is fetched again "
         "at the end of the history (after the later saves of other ids); streams: main, reserved-key probe (F07b), "
-        "shared-sub-object probe (F07c), file-path collision (hand-made ids, observation), asked-early (an id is asked for - "
+        "shared-sub-object probe (F07c), shared sub-objects next to early data keys (deterministic, implementation side: plain "
+        "lists / dicts referenced twice inside the metadata or by metadata and data, in recordings whose data keys sort before "
+        "'_metadata' - upper case, digit, quote, punctuation, empty - after it, and on both sides; metadata fetched on its own "
+        "first, then the full recording, then the metadata again; every cassette kind x prefixes), file-path collision (hand-made ids, observation), asked-early (an id is asked for - "
         "full and metadata-only - before its recording is created / filled / saved and again after the save, through the "
         "saving cassette object or through a second object over the same directory / bucket + prefix that lives for the "
         "whole history: 6 deterministic probes + a random stream), long (deterministic probes per cassette kind: two recordings are "
@@ -340,6 +343,45 @@ LONG = {"quick": {"mem": [(550, 560, True)], "file": [(550, 560, True)], "s3": [
                      "s3": [(550, 560, True), (150, 160, True), (1300, 40, False)]}}
 
 
+EARLY_KEYS = ["K", "0", "\"q", "", "Zeta", "-x", "A b", "[k]"]     # data keys that sort BEFORE the S3 document's '_metadata'
+
+
+def early_key_shared_cases():
+    """shared sub-objects (plain lists / dicts, referenced twice inside the metadata, or by the metadata and the data) in a
+    recording whose data keys sort before, after and on both sides of '_metadata' (upper case, digit, quote, punctuation,
+    empty key; the recorder's own 'input: ..' keys sort after): the position of the metadata inside whatever document a
+    cassette writes must not matter to the metadata fetched on its own.  Outside the F07c region (no object instances)."""
+    r0, r1 = {"t": "ref", "n": 0}, {"t": "ref", "n": 1}
+    shapes = [
+        # the metadata references one of its own lists twice; the early data key holds a list of its own
+        (lambda key: [[key, pv.lst([pv.i(1), pv.i(2)])], ["k", pv.i(5)]],
+         [["rows", r0], ["same_rows", r0], ["tag", pv.s("v1")]], [pv.lst([pv.i(1), pv.i(2), pv.i(3)])]),
+        # the metadata shares a list with the data recorded under the early key
+        (lambda key: [[key, r0]], [["ids", r0], ["count", pv.i(3)]], [pv.lst([pv.s("a"), pv.s("b"), pv.s("c")])]),
+        # two shared sub-objects, a dict and a list holding it; data on both sides of '_metadata'
+        (lambda key: [[key, pv.lst([r0, pv.lst([])])], ["input: x", r1], ["k2", pv.dct([("z", pv.lst([pv.i(0)]))])]],
+         [["first", r1], ["second", r1], ["d", r0]],
+         [pv.dct([("a", pv.i(1))]), pv.lst([r0, pv.i(2)])]),
+        # the same list three times in the metadata only, a dict of lists under the early key
+        (lambda key: [[key, pv.dct([("p", pv.lst([pv.i(1)])), ("q", pv.lst([pv.i(2)]))])]],
+         [["m", pv.lst([r0, r0])], ["n", r0]], [pv.lst([pv.s("x")])]),
+    ]
+    out = []
+    n = 0
+    for key in EARLY_KEYS + ["k"]:
+        for data_of, meta, pool in shapes:
+            for kind in ("s3", "file", "mem"):
+                prefix = ["", "p", "a/b"][n % 3]
+                n += 1
+                rid = ("Op/20200227/%032x" if kind == "s3" else "Op/%032x") % 1
+                out.append(dict(kind=kind, prefix=prefix, stream="shared", ops=[
+                    dict(op="create", slot=0, cat="Op"),
+                    dict(op="fill", slot=0, data=data_of(key), meta=meta, pool=pool),
+                    dict(op="save", slot=0), dict(op="get_meta", id=rid), dict(op="get", id=rid),
+                    dict(op="scribble_fetched", n=n), dict(op="get_meta", id=rid)]))
+    return out
+
+
 def generate(rng, tier):
     n = 150 if tier == "quick" else 1500
     cases = []
@@ -371,6 +413,7 @@ def generate(rng, tier):
             dict(op="get", id=("Op/20200227/%032x" if k == "s3" else "Op/%032x") % 1)]))
     for i in range(6):                                  # file-path collisions of hand-made ids (observation)
         cases.append(gen_case(rng, tier, "collision", kinds[i % 3]))
+    cases += early_key_shared_cases()                   # round 7 (deterministic; after every draw of the streams above)
     # histories in which an id is asked for BEFORE it is saved, through the saving cassette object or a second one over
     # the same store: deterministic probes (always run) + a random stream with its own generator (the streams above draw
     # the same cases as before this one existed)
